@@ -1,4 +1,5 @@
 import RulesModel.Proofs.SourceToSpec
+import RulesModel.Proofs.C13
 /-!
 # The translated visitor running on the translated Operation methods
 
@@ -188,3 +189,24 @@ example : VisitorGen.genProcessT id
     [(bytesOf "a", .obj [(bytesOf "b", .int 3)]), (bytesOf "x", .stringer 7 (.ret (bytesOf "xSy")))]
     = { verdict := true, err := none, debug := none, calls := [7] } := by decide +kernel
 end Rules
+
+namespace Rules.VisitorGen
+open Rules Rules.Go Rules.Cst Rules.Gen
+
+/-- **C13 on the translated code.** The visitor as translated from the Go source, calling the translated Operation
+methods, never assigns the register that holds the input object: after any (sub-)rule, from any clean state, it still
+holds the object it was given (and the translation accepts no statement that writes through a map or slice of the input:
+such a function is `unsupported`, §4.4). -/
+theorem translated_frame (lower : Bytes → Bytes) (c : QueryCtx) (j j' : J) (r : Ret) (hc : Clean (toV j))
+    (h : acceptQuery (genOps lower) c j = .ok (r, j')) : j'.item = j.item := by
+  have hs := acceptQuery_gen_spec lower c j hc
+  rw [h] at hs
+  cases hv : visit lower (abs c) (toV j) with
+  | error p => simp [hv, mapR] at hs
+  | ok bs =>
+    obtain ⟨b, s'⟩ := bs
+    simp only [hv, mapR, Except.ok.injEq, Prod.mk.injEq] at hs
+    have := C13_frame lower (abs c) (toV j) b s' hv
+    rw [← hs.2] at this
+    simpa [toV] using this
+end Rules.VisitorGen
